@@ -279,13 +279,18 @@ def extzlist(v):
     return "[" + "; ".join(extz(x) for x in v) + "]"
 
 
+NONFINITE = {"nan": 0, "inf": 0}   # non-finite binary64 literals handed to Coq by this run (evidence)
+
+
 def fl(x):
     """binary64 literal for Coq's PrimFloat, exact (hexadecimal)."""
     import math
     x = float(x)
     if math.isnan(x):
+        NONFINITE["nan"] += 1
         return "nan"
     if math.isinf(x):
+        NONFINITE["inf"] += 1
         return "infinity" if x > 0 else "neg_infinity"
     h = x.hex()
     return "(%s)" % h if x < 0 or h.startswith("-") else h
@@ -380,6 +385,7 @@ def finish(ctx, level, coverage, assumptions):
               wall_s=round(ctx.elapsed(), 2), violations=len(ctx.violations))
     if ctx.known_hits:
         ev["coverage"]["known_findings_hit"] = sorted(seen)
+    ev["coverage"]["nonfinite_float_literals_sent_to_coq"] = dict(NONFINITE)
     if LAST_PO.get("coqchk"):
         ev["coverage"]["coqchk"] = LAST_PO["coqchk"]
     os.makedirs(EVID, exist_ok=True)
